@@ -223,7 +223,9 @@ def apply_op(b, op, inherit=True):
             from prov.model import ProvBundle
             from prov.identifier import Namespace, QualifiedName
             qn = QualifiedName(Namespace(name["prefix"] or "fb", name["ns"]), name["local"])
-            if not b.no_exclude and any(str(x.identifier) == str(qn) for x in b.doc.bundles):
+            # what the free bundle will print for its identifier in its own scope (reserved prefixes are renamed)
+            printed = str(ProvBundle().valid_qualified_name(qn))
+            if not b.no_exclude and any(str(x.identifier) in (str(qn), printed) for x in b.doc.bundles):
                 # known finding F-C01-1: two bundles printing the same identifier for different URIs share
                 # one key in PROV-JSON; avoided by construction so that the search continues behind it
                 b.stats["excluded_by_finding:F-C01-1"] += 1
@@ -255,8 +257,19 @@ def apply_op(b, op, inherit=True):
             if dropped == 0 and len(cand) == len(m["intent_attrs"]) + 1:
                 m["intent_attrs"].append([nm, val])
                 new.append([nm, val])
-        if si != 0 and any(v["k"] in ("qn", "lit", "tlit") or nm["as"] == "qn" for nm, v in new):
-            inherit = False    # same rule as in _apply_rec: no document-level spellings next to QualifiedName objects
+        if si != 0 and inherit:
+            # same rule as in _apply_rec: no document-level spellings next to QualifiedName objects in one call
+            # (decided on the spellings actually chosen: a 'str' preference may fall back to an object)
+            snap = (Counter(b.stats), [set(x) for x in b.requested])
+            inh = lambda: b.stats["spell:str-inherited"] + b.stats["spell:bare-inherited"] + b.stats["spell:uri-inherited"]
+            objs = lambda: b.stats["spell:qn"] + b.stats["value:qn-object"]
+            i0, o0 = inh(), objs()
+            [(spell(b, si, nm, True), pyvalue(b, si, val)) for nm, val in new]
+            mixed = inh() > i0 and objs() > o0
+            b.stats, b.requested = snap
+            if mixed:
+                b.stats["spell:inherited-withdrawn"] += 1
+                inherit = False
         pairs = [(spell(b, si, nm, inherit), pyvalue(b, si, val)) for nm, val in new]
         if op[3] == "dict":
             # a dict cannot carry two values for one key: keep the pair form for those
